@@ -34,7 +34,8 @@ func init() {
 		"under Modify no removal from a leaf index is followed, in the same function, by the return of a freshly created error. R10f: every position written to the map forest's "+
 		"index is the position expression of a node-store Put in the same function (one reviewed identity: calcNextPosition(sibling(d), d) = Parent(d)). R10g: an index update "+
 		"inside a loop is never conditioned on a comparison of that loop's induction variable. R10h: a position read (GetHash) goes through the keyed node store, or the walk from "+
-		"a root selected by arithmetic on the position is gated by a reviewed exact existence test (inForest, maxPositionAtRow) that receives the leaf count itself.", "")
+		"a root selected by arithmetic on the position is gated by a reviewed exact existence test (inForest, maxPositionAtRow) that receives the leaf count itself. R10i: in a "+
+		"hash -> position look-up a node found under a truncated-hash map key derived from the caller's hash is used only behind an equality of its full hash with the hash asked for.", "")
 	add("C11", "R11f: every success return hands out the UpdateData whose fields were all stored. R11g: the recorded position of the added leaf depends on the lifting call. R11h: "+
 		"no call reachable from the update returns a truncated hash.", "")
 	add("C12", "R12g: every exported method enters at most one critical section on any path, counting the sections of the functions it calls (transitive lock acquirers over the "+
